@@ -488,14 +488,27 @@ Proof.
   destruct (fp (fts s i)) as [| | | |? []| |]; try contradiction; lia.
 Qed.
 
+(* ... more precisely: that thread owns the lock and is inside reduce_time_left(0) on the generate_events
+   the loop is waiting in, before its resume() *)
 Theorem blocked_wake_in_flight : forall m s, reachable m s -> blocked s = true ->
   forall i k, In (EvF i k) (pending s) ->
-  S k = fapp (fts s i) /\ lock s = Some (S i, 1) /\
-  exists g r, fp (fts s i) = FRed g r /\ g = cur s /\ r <> RRel /\
-              (r = RAcq -> False) \/ True.
+  S k = fapp (fts s i) /\
+  (exists d, lock s = Some (S i, d)) /\
+  exists r, fp (fts s i) = FRed (cur s) r /\ r <> RRel /\ (tlc s = Zero -> fl_post (fp (fts s i)) = true).
 Proof.
-  intros. split; [|split]; try (exists 0, RAcq); auto.
-Abort.
+  intros m s Hr Hb i k He. pose proof (Inv_reachable _ _ Hr) as HI.
+  destruct (blocked_region _ HI Hb) as [Hs Hbl].
+  destruct (j2 s HI Hs (or_introl Hbl) i k He) as [Hk Hpc].
+  split; [exact Hk|].
+  pose proof (i0 s HI (S i)) as HL. unfold held, lockd in HL.
+  pose proof (if1 s HI i) as H1.
+  destruct (fp (fts s i)) as [| | | |g r| |] eqn:E; try contradiction.
+  simpl in H1. specialize (H1 g eq_refl). subst g. split.
+  - destruct (lock s) as [[o d]|]; simpl in HL; [|lia].
+    destruct (Nat.eqb_spec (S i) o); [subst; eauto| simpl in HL; lia].
+  - exists r. split; [reflexivity|]. destruct r; try contradiction; (split; [discriminate|]); simpl; auto;
+      intros Hz; contradiction.
+Qed.
 
 Theorem mutual_exclusion : forall m s, reachable m s -> forall t u,
   0 < held s t -> 0 < held s u -> t = u.
